@@ -957,6 +957,8 @@ def minimise_all(runner, fresh_of, items):
 # history generation
 # ----------------------------------------------------------------------------
 
+# regression histories: one group per mechanism that used to poison the interpreter (repaired by the fix: commits
+# 73c9e08 72ebcaa 215d68c 5bdcba1 36732b7; Examples C11_before_fixes_* / C11_current_regressions in the Props file)
 CORPUS = [
     # (i) statemachine singleton
     ["r_sm_continue", "a_coro"],
